@@ -6,7 +6,7 @@
 
 use crate::util::*;
 use crate::world::*;
-use grin_core::core::Transaction;
+use grin_core::core::{FeeFields, Transaction};
 use grin_core::libtx::proof::ProofBuilder;
 use grin_core::libtx::tx_fee;
 use grin_keychain::{ExtKeychain, Identifier, Keychain};
@@ -247,6 +247,24 @@ pub fn case_a(rep: &mut Report, outs: &[OutputData], parent: &Identifier, p: &Pa
 		}
 		Ok(Ok(t)) => t,
 	};
+	if FeeFields::new(0, fee).is_err() {
+		// The selection arrived at a fee no kernel can carry (more than 2^40 - 1): the operations built on it
+		// (here: building the send; the estimate is judged at API level in workload B) cannot make this payment and
+		// have to say so with an error.
+		let mk = || MemBackend { outs: outs.to_vec(), parent: parent.clone(), next: AtomicU32::new(100), iters: AtomicU64::new(0), node: node.clone(), kc: kc.clone() };
+		if rep.hist.get("A:fee-exceeds-the-kernel-fee-field:send-judged").cloned().unwrap_or(0) < 4 {
+			rep.count("A:fee-exceeds-the-kernel-fee-field:send-judged");
+			let mut be3 = mk();
+			let mut slate = libwallet::Slate::blank(2, false);
+			slate.amount = p.amount;
+			match catch(|| selection::build_send_tx(&mut be3, kc, None, &mut slate, p.height, p.minconf, p.max_outputs, p.change_outputs, p.use_all, None, parent.clone(), false, true, p.includes_fee)) {
+				Err((loc, msg)) => rep.violation(&format!("C01|panic|build_send_tx|{}|fee-exceeds-the-kernel-fee-field", loc), &format!("build_send_tx panicked at {}: {}", loc, msg), case()),
+				Ok(Err(e)) => rep.count(&format!("A:fee-exceeds-the-kernel-fee-field:send-refused:{}", err_kind(&e))),
+				Ok(Ok(_)) => rep.violation("C01|agreed-to-build-with-a-fee-no-kernel-can-carry", &format!("build_send_tx agreed to a payment whose fee {} exceeds the kernel fee field", fee), case()),
+			}
+		}
+		return;
+	}
 	// inputs: currently spendable outputs of the source account, no duplicates
 	let mut seen = std::collections::BTreeSet::new();
 	for c in coins.iter() {
@@ -419,7 +437,7 @@ fn run_a(rep: &mut Report, a: &Args, rng: &mut Rng, node: &DirectNode) {
 	let parent = ExtKeychain::derive_key_id(2, 0, 0, 0, 0);
 	let other = ExtKeychain::derive_key_id(2, 1, 0, 0, 0);
 	let vals = value_pool();
-	let change_counts = [0usize, 1, 2, 3, 4, 5, 17, 255];
+	let change_counts = [0usize, 1, 2, 3, 4, 5, 17, 255, 105_000];
 	let max_outs = [0usize, 1, 2, 3, 500];
 	let minconfs = [0u64, 1, 2, 10];
 
@@ -530,7 +548,7 @@ fn run_b(rep: &mut Report, a: &Args, rng: &mut Rng, w: &mut World) {
 	let scratch = format!("{}/scratch", a.work);
 	std::fs::create_dir_all(&scratch).unwrap();
 	// history: several coinbases to w0, a few small payments back and forth
-	if let Err(e) = w.mine_n(Some(0), 8) {
+	if let Err(e) = w.mine_n(Some(0), 20) {
 		rep.inconclusive(&format!("setup mining failed: {}", e));
 		return;
 	}
@@ -564,6 +582,72 @@ fn run_b(rep: &mut Report, a: &Args, rng: &mut Rng, w: &mut World) {
 		for acct in ["acct1", "default"].iter() {
 			let _ = w.wallets[i].set_account(acct);
 			let _ = w.wallets[i].refresh();
+		}
+	}
+	// a source account that does not exist owns no outputs: a payment from it cannot be built
+	for mode in 0..4u64 {
+		let wal = &w.wallets[0];
+		let other = &w.wallets[1];
+		let _ = wal.set_account("default");
+		let _ = wal.refresh();
+		let before = wal.db_dump(&scratch);
+		let args = InitTxArgs { amount: 1_000_000_000 + rng.below(1_000_000_000), minimum_confirmations: 1, num_change_outputs: 1, selection_strategy_is_use_all: false, estimate_only: Some(mode == 1), late_lock: Some(mode == 2), src_acct_name: Some("acct".to_string()), ..Default::default() };
+		let mode_name = ["send", "estimate_only", "late_lock", "pay_invoice"][mode as usize];
+		let case = json!({"workload":"B", "scenario": "src_acct_name names an account that does not exist", "mode": mode_name});
+		rep.eval();
+		let r = catch(|| -> Result<Uuid, libwallet::Error> {
+			if mode == 3 {
+				let inv = other.issue_invoice(IssueInvoiceTxArgs { amount: args.amount, ..Default::default() })?;
+				let id = inv.id;
+				let mut a2 = args.clone();
+				a2.estimate_only = None;
+				a2.late_lock = None;
+				let r = wal.process_invoice(&inv, a2).map(|_| id);
+				let _ = other.cancel(None, Some(id));
+				r
+			} else {
+				wal.init_send(args.clone()).map(|s| s.id)
+			}
+		});
+		match r {
+			Err((loc, msg)) => rep.violation(&format!("C01|panic|api|{}|unknown-source-account", loc), &msg, case),
+			Ok(Err(e)) => {
+				rep.count("B:refused:unknown-source-account");
+				rep.distinct(&("B-unknown-src", mode, err_kind(&e)));
+			}
+			Ok(Ok(id)) => {
+				let after = wal.db_dump(&scratch);
+				rep.violation(&format!("C01|payment-from-a-source-account-that-does-not-exist-was-built|{}", mode_name), &format!("{} with src_acct_name naming no account of the wallet returned Ok (built from the active account's outputs); persisted: {:?}", mode_name, diff_reserving(&before, &after)), case);
+				let _ = wal.cancel(None, Some(id));
+			}
+		}
+	}
+	// so many change outputs that the minimum fee exceeds what a kernel's fee field can hold (2^40 - 1), in a wallet
+	// that could afford it: estimate and late-locked initiation (no keys are derived for either) must answer with
+	// an error, not crash
+	for mode in [1u64, 2].iter() {
+		let wal = &w.wallets[0];
+		let _ = wal.set_account("default");
+		let _ = wal.refresh();
+		let n_chg = 105_000u32;
+		let spendable = wal.info(false, 1).map(|i| i.1.amount_currently_spendable).unwrap_or(0);
+		let min_fee = tx_fee(1, 1 + n_chg as usize, 1);
+		let args = InitTxArgs { amount: 1_000_000_000, minimum_confirmations: 1, max_outputs: 500, num_change_outputs: n_chg, selection_strategy_is_use_all: true, estimate_only: Some(*mode == 1), late_lock: Some(*mode == 2), ..Default::default() };
+		let mode_name = ["send", "estimate_only", "late_lock"][*mode as usize];
+		let case = json!({"workload":"B", "scenario": "num_change_outputs so large that the minimum fee exceeds the kernel fee field", "mode": mode_name, "num_change_outputs": n_chg, "spendable": spendable.to_string(), "minimum_fee": min_fee.to_string()});
+		rep.eval();
+		match catch(|| wal.init_send(args.clone())) {
+			Err((loc, msg)) => rep.violation(&format!("C01|panic|api|{}|fee-exceeds-the-kernel-fee-field", loc), &format!("init_send_tx({}) panicked at {}: {}", mode_name, loc, msg), case),
+			Ok(Err(e)) => {
+				let reached = spendable > min_fee + 1_000_000_000 && FeeFields::new(0, min_fee).is_err();
+				rep.count(&format!("B:fee-exceeds-the-kernel-fee-field:{}:{}", if reached { "refused" } else { "not-reached" }, err_kind(&e)));
+			}
+			Ok(Ok(s)) => {
+				if *mode == 2 {
+					let _ = wal.cancel(None, Some(s.id));
+				}
+				rep.violation(&format!("C01|agreed-to-build-with-a-fee-no-kernel-can-carry|{}", mode_name), &format!("init_send_tx({}) returned Ok with fee field {} for a payment whose minimum fee is {}", mode_name, s.fee_fields.fee(), min_fee), case);
+			}
 		}
 	}
 	let n_cases = if a.thorough() { 500 } else { 40 };
@@ -615,7 +699,7 @@ fn run_b(rep: &mut Report, a: &Args, rng: &mut Rng, w: &mut World) {
 			amount_includes_fee: Some(includes_fee),
 			minimum_confirmations: minconf,
 			max_outputs: *rng.pick(&[0u32, 1, 2, 500, 500, 500]),
-			num_change_outputs: *rng.pick(&[0u32, 1, 1, 2, 3, 5, 9]),
+			num_change_outputs: *rng.pick(&[0u32, 1, 1, 2, 3, 5, 9, 10, 12]),
 			selection_strategy_is_use_all: rng.bool(),
 			estimate_only: Some(mode == 1),
 			late_lock: Some(mode == 2),
@@ -844,6 +928,10 @@ fn run_b(rep: &mut Report, a: &Args, rng: &mut Rng, w: &mut World) {
 			rep.violation(&format!("C01|conservation|{}", class), &format!("API: inputs {} != amount {} + fee {} + change {}", in_total, recipient_amount, fee, ch_total), case());
 		} else if fee < tx_fee(ctx.input_ids.len(), 1 + ctx.output_ids.len(), 1) {
 			rep.violation("C01|fee-below-minimum", &format!("fee {} below minimum for {} in / {} out", fee, ctx.input_ids.len(), 1 + ctx.output_ids.len()), case());
+		} else if Transaction::weight_by_iok(ctx.input_ids.len() as u64, 1 + ctx.output_ids.len() as u64, 1) > grin_core::global::max_tx_weight() {
+			// "many change outputs" is one of the cases in which the wallet cannot build the payment: the transaction
+			// (these inputs, the change outputs plus the recipient's output, one kernel) can never be valid
+			rep.violation("C01|agreed-to-build-a-transaction-exceeding-the-maximum-weight", &format!("the wallet agreed to build a payment with {} inputs and {} change outputs: weight {} exceeds the maximum {}", ctx.input_ids.len(), ctx.output_ids.len(), Transaction::weight_by_iok(ctx.input_ids.len() as u64, 1 + ctx.output_ids.len() as u64, 1), grin_core::global::max_tx_weight()), case());
 		} else {
 			rep.count(if mode == 0 { "B:send-built" } else { "B:invoice-paid" });
 			rep.distinct(&("B-built", mode, ctx.input_ids.len(), ctx.output_ids.len(), includes_fee, args.selection_strategy_is_use_all));
